@@ -77,7 +77,7 @@ BpeCases == IF ~Fam("bpe") THEN {} ELSE LET texts == SetToSeq(SeqsOver(0..NB, Ma
 \* whitespace and to ww.  Byte slots 1..5 = a..e (harness byte alphabet "abcde").
 SubStrs(w) == {SubSeq(w, a, b) : a \in 1..Len(w), b \in 1..Len(w)} \ ({<<>>} \cup {<<w[k]>> : k \in 1..Len(w)})
 SubTables(w) == {t \in UNION {[1..k -> SubStrs(w)] : k \in 1..MaxTab} : B!WellFormed(t)}
-SubWords == {<<1, 2, 3, 4>>, <<1, 2, 3, 4, 5>>, <<1, 2, 2, 1, 2>>, <<1, 1, 2, 1, 1>>, <<1, 2, 1, 2, 1>>}
+SubWords == {<<1, 2, 3, 4>>, <<1, 2, 3, 4, 5>>, <<1, 2, 2, 1, 2>>, <<1, 1, 2, 1, 1>>, <<1, 2, 1, 2, 1>>, <<1, 1, 1, 1>>, <<1, 1, 1, 1, 1>>}
 BpeSubCases == IF ~Fam("bpesub") THEN {} ELSE
     UNION {{ [kind |-> "bpe", special |-> Sp(<<"<pad>", "<b>">>, "<pad>", <<>>, <<>>), g |-> FALSE, pad_to |-> 0,
               groups |-> "bytes", agg |-> "mean", unk |-> "<u>", balpha |-> "abcde", tabslots |-> t, max_vocab |-> 0,
